@@ -24,9 +24,14 @@ pub mod spec_writer {
         b[i] == (x >> 24) as u8 && b[i + 1] == ((x >> 16) & 0xff) as u8 && b[i + 2] == ((x >> 8) & 0xff) as u8 && b[i + 3] == (x & 0xff) as u8
     }
 
+    /// The octets `w` are stored at `b[at..]`.
+    pub open spec fn placed(b: Seq<u8>, at: int, w: Seq<u8>) -> bool {
+        at + w.len() <= b.len() && forall|i: int| 0 <= i < w.len() ==> b[at + i] == #[trigger] w[i]
+    }
+
     /// The two buffers agree on `[0, n)`.
     pub open spec fn same_prefix(a: Seq<u8>, b: Seq<u8>, n: int) -> bool {
-        a.len() == b.len() && forall|i: int| 0 <= i < n ==> a[i] == b[i]
+        a.len() == b.len() && forall|i: int| 0 <= i < n ==> a[i] == #[trigger] b[i]
     }
 
     /// Header field: 16-bit counter stored at `[at, at + 2)`.
@@ -46,6 +51,13 @@ pub mod spec_writer {
     pub open spec fn lc(b: u8) -> u8 { if 65 <= b && b <= 90 { (b + 32) as u8 } else { b } }
     pub open spec fn ci_eq(a: Seq<u8>, b: Seq<u8>) -> bool {
         a.len() == b.len() && forall|i: int| 0 <= i < a.len() ==> lc(a[i]) == lc(b[i])
+    }
+
+    /// Reading back a big-endian 16-bit value.
+    pub proof fn lemma_hdr16_be(x: u16)
+        ensures ((x >> 8) as u8 as int) * 256 + ((x & 0xff) as u8 as int) == x as int,
+    {
+        assert(((x >> 8) as u8 as int) * 256 + ((x & 0xff) as u8 as int) == x as int) by (bit_vector);
     }
 
     pub proof fn lemma_splice(s: Seq<u8>, pos: int, data: Seq<u8>)
